@@ -46,8 +46,8 @@ theorem saveJson_eq (K : Consts) (ts : TypeSystem) (cass : List Cas) (ci : Nat) 
       (c.views.foldlM (sofaStep K ts cass hp) []).bind (fun sofaFss =>
         (findAllFs K ts { includeInlinable := true } hp c.nextXid (defaultSeeds c)).bind (fun st =>
           (renderAll K ts cass st.heap (sortById st.allFs)).bind (fun fsElems =>
-            .ok ({ types := (typesOf K ts mode st.heap (sortById st.allFs)).map (·.map (renderTypeDecl K)),
-                   fss := sofaFss ++ fsElems, views := c.views.map (viewRec hp) }, st)))) := by
+            (renderTypes K (typesOf K ts mode st.heap (sortById st.allFs))).bind (fun decls =>
+              .ok ({ types := decls, fss := sofaFss ++ fsElems, views := c.views.map (viewRec hp) }, st))))) := by
   unfold saveJson
   rw [hc]
   cases mode <;> rfl
@@ -493,6 +493,7 @@ theorem saveJson_heap_frame_aux (K : Consts) (ts : TypeSystem) (cass : List Cas)
     obtain ⟨sofaFss, _, h⟩ := bindE_ok h
     obtain ⟨st0, hst, h⟩ := bindE_ok h
     obtain ⟨fsElems, _, h⟩ := bindE_ok h
+    obtain ⟨decls, _, h⟩ := bindE_ok h
     cases h
     exact findAllFs_heap_frame_aux K ts _ hp c.nextXid (defaultSeeds c) st hst
 
@@ -501,24 +502,23 @@ theorem saveJson_heap_frame_aux (K : Consts) (ts : TypeSystem) (cass : List Cas)
 theorem saveJson_again (K : Consts) (ts : TypeSystem) (cass : List Cas) (ci : Nat) (hp : Heap) (mode : Mode) (c : Cas)
     (doc : JDoc) (st : Traverse.St) (hc : cass[ci]? = some c) (hnx : 0 < c.nextXid)
     (hb : Traverse.IdsBelow hp c.nextXid) (h : saveJson K ts cass ci hp mode = .ok (doc, st)) :
-    ∃ (sofaFss fsElems : List JFs),
+    ∃ (sofaFss fsElems : List JFs) (decls : Option (List JType)),
       c.views.foldlM (sofaStep K ts cass hp) [] = .ok sofaFss ∧
-      doc = { types := (typesOf K ts mode st.heap (sortById st.allFs)).map (·.map (renderTypeDecl K)),
-              fss := sofaFss ++ fsElems, views := c.views.map (viewRec hp) } ∧
+      doc = { types := decls, fss := sofaFss ++ fsElems, views := c.views.map (viewRec hp) } ∧
       SameShape hp st.heap ∧
       ∀ sofaFss', c.views.foldlM (sofaStep K ts cass st.heap) [] = .ok sofaFss' →
         ∃ st' : Traverse.St,
           saveJson K ts (cass.set ci { c with nextXid := st.nextXid }) ci st.heap mode =
-            .ok ({ types := (typesOf K ts mode st.heap (sortById st.allFs)).map (·.map (renderTypeDecl K)),
-                   fss := sofaFss' ++ fsElems, views := c.views.map (viewRec st.heap) }, st') ∧
+            .ok ({ types := decls, fss := sofaFss' ++ fsElems, views := c.views.map (viewRec st.heap) }, st') ∧
           st'.heap = st.heap ∧ st'.nextXid = st.nextXid ∧ st'.allFs = st.allFs := by
   have hlt : ci < cass.length := (List.getElem?_eq_some_iff.mp hc).1
   rw [saveJson_eq K ts cass ci c hp mode hc] at h
   obtain ⟨sofaFss, hsf, h⟩ := bindE_ok h
   obtain ⟨st0, hst, h⟩ := bindE_ok h
   obtain ⟨fsElems, hr, h⟩ := bindE_ok h
+  obtain ⟨decls, hd, h⟩ := bindE_ok h
   cases h
-  refine ⟨sofaFss, fsElems, hsf, rfl, findAllFs_heap_frame_aux K ts _ hp c.nextXid (defaultSeeds c) st hst, ?_⟩
+  refine ⟨sofaFss, fsElems, decls, hsf, rfl, findAllFs_heap_frame_aux K ts _ hp c.nextXid (defaultSeeds c) st hst, ?_⟩
   intro sofaFss' hsf'
   obtain ⟨st', h2, ha, hh, hn⟩ :=
     Traverse.findAllFs_idempotent_aux K ts _ hp c.nextXid (Traverse.defaultSeeds c) st hnx hb hst
@@ -532,6 +532,8 @@ theorem saveJson_again (K : Consts) (ts : TypeSystem) (cass : List Cas) (ci : Na
   rw [h2]
   show (renderAll K ts _ st'.heap (sortById st'.allFs)).bind _ = _
   rw [hh, ha, renderAll_cass K ts _ cass (sameViews_set cass ci c hc _), hr]
+  show (renderTypes K (typesOf K ts mode st.heap (sortById st.allFs))).bind _ = _
+  rw [hd]
   rfl
 
 theorem filterMap_congr_mem {α β} (f g : α → Option β) (l : List α) (h : ∀ x ∈ l, f x = g x) :
@@ -559,7 +561,7 @@ theorem saveJson_idempotent_aux (K : Consts) (ts : TypeSystem) (cass : List Cas)
     ∃ st' : Traverse.St,
       saveJson K ts (cass.set ci { c with nextXid := st.nextXid }) ci st.heap mode = .ok (doc, st') ∧
       st'.heap = st.heap ∧ st'.nextXid = st.nextXid ∧ st'.allFs = st.allFs := by
-  obtain ⟨sofaFss, fsElems, hsf, hdoc, sh, hagain⟩ := saveJson_again K ts cass ci hp mode c doc st hc hnx hb h
+  obtain ⟨sofaFss, fsElems, decls, hsf, hdoc, sh, hagain⟩ := saveJson_again K ts cass ci hp mode c doc st hc hnx hb h
   have hsf' : c.views.foldlM (sofaStep K ts cass st.heap) [] = .ok sofaFss := by
     rw [foldlM_congr_mem _ (sofaStep K ts cass hp) c.views
       (fun acc p hp' => sofaStep_shape_ids K ts cass hp st.heap sh p (harr p hp') acc)]
@@ -593,7 +595,7 @@ theorem saveJson_second_aux (K : Consts) (ts : TypeSystem) (cass : List Cas) (ci
         saveJson K ts ((cass.set ci { c with nextXid := st.nextXid }).set ci
             { c with nextXid := st'.nextXid }) ci st'.heap mode = .ok (doc', st'') ∧
         st''.heap = st'.heap ∧ st''.nextXid = st'.nextXid ∧ st''.allFs = st'.allFs := by
-  obtain ⟨sofaFss, fsElems, hsf, hdoc, sh, hagain⟩ := saveJson_again K ts cass ci hp mode c doc st hc hnx hb h
+  obtain ⟨sofaFss, fsElems, decls, hsf, hdoc, sh, hagain⟩ := saveJson_again K ts cass ci hp mode c doc st hc hnx hb h
   obtain ⟨sofaFss', hsf'⟩ := sofaFold_ok_shape K ts cass hp st.heap sh c.views [] [] sofaFss hsf
   obtain ⟨st', h2, r1, r2, r3⟩ := hagain sofaFss' hsf'
   refine ⟨_, st', h2, r1, r2, r3, ?_, ?_, ?_, ?_⟩
